@@ -563,7 +563,12 @@ def metric_classes():
             items: tuple[int, ...]
 
         class M1(State):
+            """a metric whose instances may be falsy (empty / even totals): presence is never decided by truthiness"""
+
             items: tuple[int, ...]
+
+            def __bool__(self) -> bool:
+                return sum(self.items) % 2 == 1
 
         class M2(State):
             items: tuple[int, ...]
